@@ -113,7 +113,6 @@ CasesFor(pats) ==
         prog \in Programs,
         nr \in [1..Len(pats) -> NReals], ng \in [1..Len(pats) -> NGhosts],
         ns \in StepSets, per \in Periodics}
-Cases == UNION {CasesFor(pats) : pats \in PatSets}
 
 \* every method the program calls exists on some stepper (else the real
 \* thing does not compile); canonical: unused second entries are 0
@@ -122,9 +121,6 @@ WellFormed(c) ==
          c.ops[k].op = "stage" =>
             \E ai \in 1..Len(c.arrs) :
                 LET d == c.arrs[ai].meth[c.ops[k].m + 1] IN d.loop \/ d.py
-
-Universe ==
-    {c \in Cases : WellFormed(c)}
 
 \* named values for the cfg files
 PatsA == {<<"L">>, <<"P">>, <<"O">>, <<"W">>, <<"P", "N">>, <<"L", "P">>,
